@@ -14,7 +14,8 @@
    with one graph).  [op_kf] is the known-finding trigger (only F10f is left:
    DELETE WHERE { GRAPH ?g {..} }), [kinv] the store invariant "every graph
    holding a quad is known". *)
-From RV Require Import Update.Model Update.Proofs Update.Ops Update.Seq.
+From Coq Require Import Permutation.
+From RV Require Import Update.Model Update.Proofs Update.Ops Update.Where Update.Seq.
 Local Open Scope N_scope.
 
 (* The checker the correspondence run evaluates on rdflib's answers accepts the
@@ -43,7 +44,7 @@ Proof. exact iso_eqb_seteq. Qed.
 Print Assumptions C10_iso_eqb_complete_on_equal_sets.
 
 (* One operation = its section-3 transformer. *)
-Theorem C10_step : forall e k o s a,
+Theorem C10_step : forall e k o s a, no_where o = true ->
   scope e o -> op_kf e k o = 0 -> kinv s -> qseteq (quads s) a ->
   exists s', eval_op e k o s = Ok s' /\ qseteq (quads s') (spec_op e k o a) /\ kinv s'.
 Proof. exact step_correct. Qed.
@@ -88,6 +89,57 @@ Theorem C10_modify : forall e k s a, kinv s -> qseteq (quads s) a -> forall w ud
       (In q a /\ ~ In q (s_all e false k dg d om)) \/ In q (s_all e true k dg i om).
 Proof. exact modify_reading. Qed.
 Print Assumptions C10_modify.
+
+(* ---- WHERE evaluated inside the model (operation ModifyW) ----
+   [m_omega] = the solutions evalModify computes: C04's model of evalPart
+   (top-down, hash joins) over the dataset evalModify builds (USING: scratch
+   merge graph; WITH only without USING / USING NAMED; every named graph stays
+   visible).  [s_omega] = the bottom-up algebra (SPARQL 1.1 section 18) over the
+   query dataset SPARQL 1.1 Update 3.1.3 prescribes.  Outside the regions of
+   F10i (USING NAMED does not restrict the dataset) and F10j (a Dataset with the
+   switch on still reads its real default graph) they are the same multiset,
+   for every store without duplicates (and without C04's two boolean ids). *)
+Theorem C10_where_solutions : forall e k w ud un d i p a,
+  walg p = true -> (forall names, Sparql.Agreement.frag names [] p = true) ->
+  NoDup a -> terms_nb a ->
+  scope e (ModifyW w ud un d i p) -> op_kf e k (ModifyW w ud un d i p) = 0 ->
+  Permutation (m_omega e w ud un p a) (s_omega e w ud un p a).
+Proof. exact where_solutions. Qed.
+Print Assumptions C10_where_solutions.
+
+(* End to end: DELETE/INSERT ... WHERE { pattern } = the Dataset-UpdateOperation
+   of 3.1.3 - all solutions computed on the state BEFORE the operation,
+   deletions then insertions - for an enumeration [om] of the prescribed
+   solution multiset (the enumeration only decides which fresh node a template
+   label gets in which solution). *)
+Theorem C10_modify_where : forall e k s w ud un d i p,
+  where_ok p -> store_ok (quads s) -> kinv s ->
+  scope e (ModifyW w ud un d i p) -> op_kf e k (ModifyW w ud un d i p) = 0 ->
+  let dg := match w with Some c => c | None => dflt e end in
+  exists s' om, eval_op e k (ModifyW w ud un d i p) s = Ok s' /\ kinv s'
+    /\ Permutation om (s_omega e w ud un p (quads s))
+    /\ forall q, In q (quads s') <->
+         (In q (quads s) /\ ~ In q (s_all e false k dg d om)) \/ In q (s_all e true k dg i om).
+Proof. exact modify_where. Qed.
+Print Assumptions C10_modify_where.
+
+(* templates without blank-node labels: exactly the transformer, no enumeration left *)
+Theorem C10_modify_where_exact : forall e k s w ud un d i p,
+  where_ok p -> store_ok (quads s) -> kinv s ->
+  scope e (ModifyW w ud un d i p) -> op_kf e k (ModifyW w ud un d i p) = 0 ->
+  tmpl_nolabel d = true -> tmpl_nolabel i = true ->
+  exists s', eval_op e k (ModifyW w ud un d i p) s = Ok s'
+    /\ qseteq (quads s') (spec_op e k (ModifyW w ud un d i p) (quads s)) /\ kinv s'.
+Proof. exact step_where. Qed.
+Print Assumptions C10_modify_where_exact.
+
+(* a whole request (the computed WHERE in first position): model = specification *)
+Theorem C10_request : forall c, wf c -> kf c = 0 ->
+  has_dataset (c_env c) = true \/ forallb (fun o => negb (needs_dataset o)) (c_ops c) = true ->
+  exists s', eval_from (c_env c) 0 (c_ops c) (init_state c) = Ok s'
+    /\ qseteq (quads s') (spec_from (c_env c) 0 (c_ops c) (c_quads c)) /\ kinv s'.
+Proof. exact request_correct. Qed.
+Print Assumptions C10_request.
 
 (* The loop as it was before the fix of F5 (per solution: delete, then insert)
    does not have the property: swapping ?s p ?o -> ?o p ?s on the 2-cycle
@@ -158,7 +210,7 @@ Print Assumptions C10_move.
 (* Graphs the operation does not name stay equal (data and management
    operations: [op_graphs] lists the graphs named). *)
 Theorem C10_untouched : forall e k o a c,
-  match o with Modify _ _ _ _ _ _ | DeleteWhere _ _ => False | _ => True end ->
+  match o with Modify _ _ _ _ _ _ | ModifyW _ _ _ _ _ _ | DeleteWhere _ _ => False | _ => True end ->
   ~ op_graphs e o c -> forall t, In (t, c) (spec_op e k o a) <-> In (t, c) a.
 Proof. exact spec_untouched_data. Qed.
 Print Assumptions C10_untouched.
@@ -194,7 +246,7 @@ Print Assumptions C10_fresh_supply_preserved.
 
 (* the switch is irrelevant to every evaluator: writes outside GRAPH go to the
    real default graph whatever it says *)
-Theorem C10_switch_irrelevant : forall e u k o s,
+Theorem C10_switch_irrelevant : forall e u k o s, no_where o = true ->
   eval_op {| e_fe := e_fe e; e_union := u; e_lits := e_lits e; e_bnodes := e_bnodes e |} k o s
   = eval_op e k o s.
 Proof. exact eval_op_union. Qed.
@@ -213,23 +265,32 @@ Print Assumptions C10_deldata_prefix_union_refuted.
    the transformers; nothing is skipped, nothing fails. *)
 Theorem C10_sequence : forall e ops k s a,
   has_dataset e = true \/ forallb (fun o => negb (needs_dataset o)) ops = true ->
-  kf_from e k ops = 0 -> kinv s -> qseteq (quads s) a ->
+  forallb no_where ops = true -> kf_from e k ops = 0 -> kinv s -> qseteq (quads s) a ->
   exists s', eval_from e k ops s = Ok s' /\ qseteq (quads s') (spec_from e k ops a) /\ kinv s'.
 Proof. exact sequence_correct. Qed.
 Print Assumptions C10_sequence.
 
-(* non-vacuity: through a Dataset with the switch ON (the default): the swap on
-   the 2-cycle, a DELETE DATA outside GRAPH that must leave graph 1 alone, COPY
-   and CLEAR DEFAULT; in scope, no trigger, accepted *)
+(* non-vacuity: through a Dataset with the switch ON (the default): a computed
+   WHERE (GRAPH ?g { ?s ?p ?o }, as translateUpdate builds it) feeding the swap
+   template, a DELETE DATA outside GRAPH that must leave graph 1 alone, COPY and
+   CLEAR DEFAULT; well-formed, in scope, no trigger, accepted *)
 Example C10_nonvacuous :
+  let pat := Sparql.Algebra.Join false (Sparql.Algebra.BGP [])
+               (Sparql.Algebra.Graph (Sparql.Algebra.Vr 5) (Sparql.Algebra.Join false (Sparql.Algebra.BGP []) (Sparql.Algebra.BGP [(Sparql.Algebra.Vr 1, Sparql.Algebra.Vr 2, Sparql.Algebra.Vr 3)]))) in
   let c := {| c_env := {| e_fe := FDS; e_union := true; e_lits := []; e_bnodes := [] |};
               c_quads := [((1, 3, 2), 0); ((2, 3, 1), 0); ((1, 3, 2), 1)]; c_known := [0; 1];
-              c_ops := [Modify None false false (Some swap_del) (Some swap_ins) swap_omega;
+              c_ops := [ModifyW None [] [] (Some swap_del) (Some swap_ins) pat;
                         DeleteData [(1, 3, 2)] [];
                         Copy false DDefault (DIri 5); Clear false GDefault] |} in
   wf c /\ kf c = 0 /\ in_scope (c_env c) (c_ops c) = true
-  /\ model_obs c = ([((1, 3, 2), 1); ((2, 3, 1), 5)], [1; 5], false).
+  /\ spec_ok c (model_obs c) = true
+  /\ snd (fst (model_obs c)) = [1; 5].
 Proof.
-  simpl. split; [intros q [<-|[<-|[<-|[]]]]; simpl; auto|].
-  split; [vm_compute; reflexivity|split; vm_compute; reflexivity].
+  simpl. split.
+  - split; [intros q [<-|[<-|[<-|[]]]]; simpl; auto|].
+    split; [split; [split; [reflexivity|intros; reflexivity]|split; reflexivity]|].
+    split; [|reflexivity]. intros _. split.
+    + repeat constructor; simpl; intuition congruence.
+    + intros q [<-|[<-|[<-|[]]]] t [<-|[<-|[<-|[]]]]; reflexivity.
+  - split; [vm_compute; reflexivity|split; [vm_compute; reflexivity|split; vm_compute; reflexivity]].
 Qed.
